@@ -6,4 +6,5 @@ INVARIANT EscPrintable
 INVARIANT SpecQuoting
 INVARIANT DecInverse
 INVARIANT PolShape
+INVARIANT Limits
 CHECK_DEADLOCK FALSE
